@@ -8,6 +8,7 @@ import PV.Driver.Ini
 import PV.Driver.CondVar
 import PV.Driver.Atomics
 import PV.Driver.Locks
+import PV.Driver.HashX
 def main (args : List String) : IO UInt32 := do
   match args with
   | ["ht"] => PV.Driver.HT.run; return 0
@@ -20,4 +21,5 @@ def main (args : List String) : IO UInt32 := do
   | ["condvar"] => PV.Driver.CondVar.run; return 0
   | ["atomics"] => PV.Driver.Atomics.run; return 0
   | ["locks"] => PV.Driver.Locks.run; return 0
+  | ["hashx"] => PV.Driver.HashX.run; return 0
   | _ => IO.eprintln "usage: pvdriver <family>  (ops on stdin)"; return 2
